@@ -21,6 +21,16 @@ R9  the documented disconnected error always carries an integer close code: the 
     every construction site in falcon/asgi/ws.py the argument is traced by def-use - where a None can reach it, the
     constructor must map None to an integer (seeded s6-c17-3).  Anchors: the class, its ``code`` keyword/attribute.
 
+R10 what is put into the events (seeded s7-c17-3): ``send_data`` hands the server a value of type ``bytes`` with the payload's content
+    for every admitted argument type (abstract evaluation per type: an immutable snapshot, never the caller's bytearray/memoryview);
+    ``send_text`` the str itself; ``send_media`` the matching media handler's ``serialize(media)`` under the key that matches
+    ``payload_type``; every websocket.accept/send/close literal uses only the keys the ASGI spec defines.
+
+R1 (wave 7) also decides the converse of the failed-send clause - a server send() error that is RECOGNISED as a connection loss and
+reported as WebSocketDisconnected is recorded in the state by ``_send`` itself before the error leaves (no pump raises the receiver's
+flag for max_receive_queue=0; seeded s7-c17-1) - and, in ``r1_receive_disconnect`` (registered under C18 as its R8; seeded s7-c18-1),
+that a disconnect EVENT in hand leaves the state terminal without relying on the receiver's flag and reports the event's own code.
+
 R1 also decides, for accept()/close(): the write of ACCEPTED/CLOSED is not reachable through an exceptional edge
 out of the send of the accept/close event; and for every other method that calls the raw send (``_send``): CLOSED is
 written on the exceptional continuation of the send only under a test that the classification helper recognised the
@@ -218,11 +228,7 @@ def r1_operations(run):
                  'every terminal state' % (g.name, mname, mname), g, '%s [%s]' % (ctext, mname), where=g.loc(b['cond']),
                  witness=sorted(set(b['ops']))[:10], runtime_witness=b['rw'])
     # receive: a disconnect event becomes CLOSED + WebSocketDisconnected
-    recv_funcs = sorted({fq for f in ops for cell in model.all_cells() for (_c, fq, _n) in model.analyse(f, cell).recvs})
-    if not recv_funcs:
-        raise AnchorError('no call of the raw ASGI receive reachable from the receive_* methods')
-    for fq in recv_funcs:
-        _receive_disconnect(run, model, p.func(fq))
+    r1_receive_disconnect(run)
     # accept/close: the promised state is entered on the normal continuation of the send only
     for f in ops:
         if f.name in ('accept', 'close'):
@@ -290,13 +296,24 @@ def _failed_send_marks_closed(run, model: WSModel, ops: List[Func]):
 
     Idioms: truthiness / ``is (not) None`` / ``isinstance`` tests on the helper's result (bound to a single-assignment
     local, a walrus, or tested directly); a CLOSED write reachable from the failed send only through other tests or a
-    class-specific ``except`` clause is a classification this rule does not model (-> unknown idiom)."""
+    class-specific ``except`` clause is a classification this rule does not model (-> unknown idiom).
+
+    The converse (seeded s7-c17-1): every ``raise`` on that exceptional continuation that may raise a
+    ``WebSocketDisconnected`` (the helper's result when one of its returns builds one, or the class itself) is preceded -
+    on every path from the failed send on which the tests do not rule a WebSocketDisconnected out (``is None``,
+    ``isinstance`` of an unrelated class) - by a statement after which the state IS terminal (an assignment, or a
+    same-class helper that records it with the receiver's flag down), or followed by one before the error leaves
+    (``finally``).  Lemma: WebSocketDisconnected raised => state terminal ("a lost connection is reported as
+    WebSocketDisconnected on later operations", "nothing after the connection is lost").
+    W: max_receive_queue=0 (no pump, nobody raises the receiver's flag), the server's send() raises OSError: the next
+    send_*() emits another websocket.send, the final close() emits websocket.close 1000, the cleanup 1011."""
     p = run.project
     for f in ops:
         for cell in model.all_cells():
             model.analyse(f, cell)
     decided_above = {f.qual for f in ops if f.name in ('accept', 'close')}
     n_senders = 0
+    n_loss_raises = 0
     helpers_ok: Dict[str, Func] = {}
     helpers_vacuous: Dict[str, tuple] = {}
     for q in sorted(model.visited_funcs):
@@ -437,8 +454,59 @@ def _failed_send_marks_closed(run, model: WSModel, ops: List[Func]):
             run.fail(what, g, w, witness=flow.describe_path(cfg, [s for s in sends if (path[0], 'exc') in cfg.succ[s]][:1] + path), runtime_witness=rw)
         if n_on_failure_path == 0:
             run.ok('%s(): no write of CLOSED is reachable from the exceptional continuation of the ASGI send' % g.name, g.loc(), '%s failed send' % g.name)
+        # the converse: a RECOGNISED connection loss is recorded in the state before it is reported
+        def rules_out_loss(expr, truth, atom=atom):
+            """`expr` evaluating to `truth` establishes that the helper's result is not a WebSocketDisconnected"""
+            expr = strip_await(expr)
+            a = atom(expr)
+            if a is not None:
+                pol, kind, _m = a
+                if kind == 'nonnull':
+                    return pol != truth                                        # the result is None
+                if pol == truth:                                               # an instance of one of `kind`
+                    return all(q != E_DISCONNECTED and p.is_subclass(E_DISCONNECTED, q) is False and p.is_subclass(q, E_DISCONNECTED) is False for q in kind)
+                return any(q == E_DISCONNECTED or p.is_subclass(E_DISCONNECTED, q) is True for q in kind)   # an instance of none of `kind`
+            if isinstance(expr, ast.UnaryOp) and isinstance(expr.op, ast.Not):
+                return rules_out_loss(expr.operand, not truth)
+            if isinstance(expr, ast.BoolOp) and ((isinstance(expr.op, ast.And) and truth) or (isinstance(expr.op, ast.Or) and not truth)):
+                return any(rules_out_loss(v, truth) for v in expr.values)
+            return False
+
+        def is_loss(q):
+            return q is not None and (q == E_DISCONNECTED or p.is_subclass(q, E_DISCONNECTED) is True)
+
+        not_loss_edges = [e for t in cfg.live_nodes() if t.kind == 'test' for lab, truth in (('T', True), ('F', False))
+                          if rules_out_loss(t.ast, truth) for e in flow.edges_out(cfg, t.id, lab)]
+        recorded = set(_must_close_nodes(model, g, cfg)) - set(sends)
+        for n in cfg.live_nodes():
+            if not (n.kind == 'stmt' and isinstance(n.ast, ast.Raise) and n.ast.exc is not None):
+                continue
+            if flow.find_path(cfg, starts, [n.id], avoid_nodes=sends) is None:
+                continue
+            m = verdict(n.ast.exc)
+            if m is not None:
+                may = any(k != RET_NONE and is_loss(k) for k in return_kinds(p, m))
+            else:
+                e = n.ast.exc.func if isinstance(n.ast.exc, ast.Call) else n.ast.exc
+                may = is_loss(p.resolve_expr(g.module, e, g))
+            if not may:
+                continue
+            n_loss_raises += 1
+            what = ('%s(): an error of the server\'s send() that is recognised as a connection loss (reported as WebSocketDisconnected) is recorded '
+                    'in the state (%s) before the error leaves %s() - by this method itself, not by the receiver\'s flag, which no pump raises '
+                    'for max_receive_queue=0' % (g.name, '/'.join(sorted(model.terminal_states())), g.name))
+            p1 = flow.find_path(cfg, starts, [n.id], avoid_nodes=set(sends) | recorded, avoid_edges=not_loss_edges)
+            p2 = flow.find_path(cfg, [y for (y, _l) in cfg.succ[n.id]], [cfg.xexit], avoid_nodes=recorded) if p1 is not None else None
+            run.check(p1 is None or p2 is None, what, g, n.ast,
+                      witness=flow.describe_path(cfg, [s_ for s_ in sends if (p1[0], 'exc') in cfg.succ[s_]][:1] + p1 + p2) if p1 and p2 else None,
+                      runtime_witness='max_receive_queue=0, the server\'s send() raises OSError once the client is gone: the responder swallows the '
+                                      'WebSocketDisconnected of one send_*(), the next send_*() hands the server another websocket.send, the '
+                                      'framework then sends websocket.close 1000 and 1011 on the dead connection and the OSError escapes the app')
     if n_senders == 0:
         raise AnchorError('no method of the state machine besides accept()/close() calls the raw ASGI send')
+    if n_loss_raises == 0:
+        raise AnchorError('no raise of WebSocketDisconnected on the exceptional continuation of the raw ASGI send (the translation of a '
+                          'lost connection reported by the server\'s send() was not found)')
     for q, m in sorted(helpers_ok.items()):
         if q in helpers_vacuous:
             continue
@@ -453,6 +521,51 @@ def _failed_send_marks_closed(run, model: WSModel, ops: List[Func]):
                           for k in sorted(kinds) for r in kinds[k]][:8] + ['guarded write: %s %s' % (g.loc(w), short(w))],
                  runtime_witness='the server\'s send() raises a RuntimeError for one data frame while the client stays connected: the helper hands the '
                                  'error back, the guard in %s() passes, the socket is marked CLOSED and no websocket.close is ever sent' % g.name)
+
+
+def _must_close_nodes(model: WSModel, f: Func, cfg) -> List[int]:
+    """CFG nodes of `f` after whose normal completion the state IS a terminal member, whatever the receiver's flag says:
+    the assignment of a terminal member itself, or a statement calling a method of the state machine all of whose normal
+    exits - entered in a non-terminal state with the disconnect flag DOWN (the unbuffered mode never raises it) - are
+    in a terminal state.  A helper that records the loss only when the receiver's flag is up is not one."""
+    terminal = tuple(model.terminal_states())
+    open_states = [s for s in model.states() if s not in terminal]
+    out = []
+    for n in cfg.live_nodes():
+        if n.kind != 'stmt' or n.ast is None:
+            continue
+        if model._sets_state_to(f, n.ast, terminal):
+            out.append(n.id)
+            continue
+        for c in n.calls():
+            m = model._self_method(f, c)
+            if m is None or m is f or not model.state_write_stmts(m, terminal):
+                continue
+            cenv = model.call_env(f, c, m, {})
+            rs = [model.analyse(m, (s, False), cenv) for s in open_states]
+            if all(r.exits and all(s2 in terminal for (s2, _d) in r.exits) for r in rs):
+                out.append(n.id)
+                break
+    return out
+
+
+def r1_receive_disconnect(run):
+    """The receive path, buffered or not: a ``websocket.disconnect`` event in hand never returns as a message, is
+    reported as ``WebSocketDisconnected``, leaves the state terminal (by an assignment, or by a helper that records it
+    with the receiver's flag DOWN - the flag is raised by the pump only, and there is no pump for max_receive_queue=0),
+    and the close code reported/recorded is taken from the EVENT in hand.  Part of C17 R1; registered under C18 as R8
+    ("a client disconnect is reported to a receiver ...", unbuffered mode 0 included).
+
+    W: max_receive_queue=0, the client leaves with code 4001: receive_*() raises WebSocketDisconnected, but ``closed`` stays
+    False, the code is None/stale and the framework's final close() puts a websocket.close on the dead connection."""
+    p = run.project
+    model = _model(run)
+    ops = _public_ops(model)
+    recv_funcs = sorted({fq for f in ops for cell in model.all_cells() for (_c, fq, _n) in model.analyse(f, cell).recvs})
+    if not recv_funcs:
+        raise AnchorError('no call of the raw ASGI receive reachable from the receive_* methods')
+    for fq in recv_funcs:
+        _receive_disconnect(run, model, p.func(fq))
 
 
 def _receive_disconnect(run, model: WSModel, f: Func):
@@ -494,8 +607,7 @@ def _receive_disconnect(run, model: WSModel, f: Func):
         return atom
 
     starts = [y for (y, l) in cfg.succ[start] if l != 'exc']
-    closed_writes = [n.id for n in cfg.live_nodes() if n.kind == 'stmt' and isinstance(n.ast, ast.Assign)
-                     and len(n.ast.targets) == 1 and model.is_state(n.ast.targets[0]) and model._member(f, n.ast.value) in model.terminal_states()]
+    closed_writes = _must_close_nodes(model, f, cfg)
     # disconnect
     filt = feasible(cfg, atom_for('websocket.disconnect'))
     reach = flow.reachable(cfg, starts, edge_filter=filt)
@@ -511,14 +623,81 @@ def _receive_disconnect(run, model: WSModel, f: Func):
         run.check(q is not None and p.is_subclass(q, E_DISCONNECTED) is True,
                   '%s: a websocket.disconnect event is reported as WebSocketDisconnected' % f.name, f, n.ast)
         path = flow.find_path(cfg, starts, [n.id], avoid_nodes=closed_writes, edge_filter=filt)
-        run.check(path is None, '%s: the state is set to CLOSED before the disconnect is reported' % f.name, f, n.ast,
+        run.check(path is None, '%s: the state is set to CLOSED before the disconnect is reported (by an assignment or a helper that records it '
+                                'whatever the receiver\'s flag says: no pump raises that flag for max_receive_queue=0)' % f.name, f, n.ast,
                   witness=flow.describe_path(cfg, path) if path else None,
                   runtime_witness='after the client disconnected, ws.closed is False and a later send is attempted')
+        _disconnect_code_from_event(run, model, f, cfg, ev, starts, n, filt)
     # message
     filt = feasible(cfg, atom_for('websocket.receive'))
     reach = flow.reachable(cfg, starts, edge_filter=filt)
     run.check(cfg.exit in reach and not (set(closed_writes) & reach),
               '%s: a websocket.receive event is returned and does not close the connection' % f.name, f, 'receive-event returns')
+
+
+def _disconnect_code_from_event(run, model: WSModel, f: Func, cfg, ev: str, starts, rn, filt):
+    """The close code reported for a disconnect EVENT in hand is the event's: the argument of the WebSocketDisconnected
+    raised on the disconnect path mentions the event (through single-assignment locals), or is a field ``self.X`` that is
+    stored from the event on every path from the receive to the raise (directly, or by a same-class helper that is
+    handed the event/a value read from it and stores its parameter).  A code copied from the receiver
+    (``client_disconnected_code``) is whatever the PUMP recorded - nothing, without a pump."""
+    p = run.project
+    c = rn.ast.exc
+    if not isinstance(c, ast.Call):
+        return
+    arg = c.args[0] if c.args else next((kw.value for kw in c.keywords if kw.arg == 'code'), None)
+    if arg is None or any(isinstance(a, ast.Starred) for a in c.args):
+        return          # no code given: the constructor's default (R9)
+
+    def from_event(e, depth=0):
+        for x in walk_self(e):
+            if isinstance(x, ast.Name) and isinstance(x.ctx, ast.Load):
+                if x.id == ev:
+                    return True
+                if depth < 3 and x.id not in f.params():
+                    ds = local_defs(f, x.id)
+                    if len(ds) == 1 and ds[0] is not None and from_event(ds[0], depth + 1):
+                        return True
+        return False
+
+    what = ('%s: the close code reported for a websocket.disconnect event in hand is taken from that event (not from a field only the '
+            'pump sets)' % f.name)
+    rw = ('max_receive_queue=0, the client leaves with close code 4001: WebSocketDisconnected carries None/a stale code, '
+          'and so does every later operation')
+    if from_event(arg):
+        run.ok(what, f.loc(c), c)
+        return
+    if not (isinstance(arg, ast.Attribute) and isinstance(arg.value, ast.Name) and arg.value.id == 'self'):
+        if p.fold(f.module, arg, f.cls, f) is not UNKNOWN:
+            run.fail(what, f, c, witness=['the argument is the constant %s' % short(arg)], runtime_witness=rw)
+            return
+        raise UnknownIdiom('%s: close code of the reported disconnect is %s' % (f.qual, short(arg)))
+    field = arg.attr
+    good_nodes = []
+    for (a2, val, node) in _c18._stores(f):
+        if a2 == field and from_event(val):
+            good_nodes += [i for i in cfg.nodes_for(node)]
+    for n in cfg.live_nodes():
+        for call in n.calls():
+            m = model._self_method(f, call)
+            if m is None or m is f:
+                continue
+            mp = [a for a in m.params() if a != 'self']
+            handed = {mp[i] for i, a in enumerate(call.args) if i < len(mp) and not isinstance(a, ast.Starred) and from_event(a)}
+            handed |= {kw.arg for kw in call.keywords if kw.arg and from_event(kw.value)}
+            if not handed:
+                continue
+            sts = [(val, node) for (a2, val, node) in _c18._stores(m) if a2 == field]
+            if not sts:
+                continue
+            mcfg = cfg_of(m, p)
+            ok_nodes = [i for (val, node) in sts if any(isinstance(x, ast.Name) and x.id in handed for x in walk_self(val)) for i in mcfg.nodes_for(node)]
+            if ok_nodes and flow.find_path(mcfg, [mcfg.entry], [mcfg.exit], avoid_nodes=ok_nodes) is None:
+                good_nodes.append(n.id)
+            else:
+                raise UnknownIdiom('%s: %s is handed the disconnect event and stores %s in a way that is not understood' % (f.qual, m.name, field))
+    path = flow.find_path(cfg, starts, [rn.id], avoid_nodes=good_nodes, edge_filter=filt)
+    run.check(path is None, what, f, c, witness=(flow.describe_path(cfg, path) if path else None), runtime_witness=rw)
 
 
 # ---------------------------------------------------------------------------
@@ -1346,6 +1525,18 @@ def _reason_gates(run, model: WSModel):
 # R5
 # ---------------------------------------------------------------------------
 
+def _mentions_through_locals(f: Func, e, name: str, depth=0) -> bool:
+    for x in walk_self(e):
+        if isinstance(x, ast.Name) and isinstance(x.ctx, ast.Load):
+            if x.id == name:
+                return True
+            if depth < 3 and x.id not in f.params():
+                ds = local_defs(f, x.id)
+                if len(ds) == 1 and ds[0] is not None and _mentions_through_locals(f, ds[0], name, depth + 1):
+                    return True
+    return False
+
+
 def r5_payload_types(run):
     p = run.project
     model = _model(run)
@@ -1388,7 +1579,7 @@ def r5_payload_types(run):
             keys = {k.value: v for k, v in zip(ev.keys, ev.values) if isinstance(k, ast.Constant)} if isinstance(ev, ast.Dict) else {}
             other = 'bytes' if key == 'text' else 'text'
             val = keys.get(key)
-            uses = val is not None and any(isinstance(x, ast.Name) and x.id == pay for x in walk_self(val))
+            uses = val is not None and _mentions_through_locals(f, val, pay)      # also through snapshot locals
             run.check(uses and other not in keys, '%s: the payload travels under the %r key only' % (name, key), f, ev if isinstance(ev, ast.Dict) else c)
     for name, keys in (('receive_text', {'text'}), ('receive_data', {'bytes'}), ('receive_media', {'text', 'bytes'})):
         f = p.func('%s.%s' % (WS, name))
@@ -1856,6 +2047,423 @@ def r9_disconnected_code(run):
                                          'sites whose argument is not understood (not accused)': undecided}
 
 
+# ---------------------------------------------------------------------------
+# R10 what travels in the events: immutable snapshot of the payload, documented serializer, documented keys
+# ---------------------------------------------------------------------------
+
+PAYLOAD_ENUM = 'falcon.constants.WebSocketPayloadType'
+_BYTESLIKE = ('bytes', 'bytearray', 'memoryview')
+_UNREAD = '?'
+# keys the ASGI WebSocket spec defines for the three server->client events (one line each)
+DOCUMENTED_KEYS = {
+    'websocket.accept': {'type', 'subprotocol', 'headers'},     # asgiref www spec, "Accept - send event"
+    'websocket.send': {'type', 'bytes', 'text'},                # "Send - send event"
+    'websocket.close': {'type', 'code', 'reason'},              # "Close - send event"
+}
+
+
+class _PayloadEval:
+    """Abstract evaluation of one send_* method for ONE concrete type of its payload argument.  A value is
+    ``(type, content)``: type in {bytes, bytearray, memoryview, str, '?'}, content 'payload' (the same bytes/characters
+    as the argument) or 'other'.  Tests on the type of a tracked local (``isinstance``, ``type(x) is C``) are evaluated,
+    every other test is non-deterministic; locals are rebound by plain assignments."""
+
+    def __init__(self, p, f: Func, pay: str):
+        self.p, self.f, self.pay = p, f, pay
+        self.cfg = cfg_of(f, p)
+
+    def _builtin(self, e) -> Optional[str]:
+        q = self.p.resolve_expr(self.f.module, e, self.f)
+        if q is None and isinstance(e, ast.Name) and e.id not in local_names_of(self.f):
+            q = 'builtins.' + e.id
+        return q[len('builtins.'):] if q and q.startswith('builtins.') else None
+
+    def _types(self, e) -> List[str]:
+        ts = e.elts if isinstance(e, ast.Tuple) else [e]
+        out = []
+        for t in ts:
+            b = self._builtin(t)
+            if b is None:
+                raise UnknownIdiom('%s: type test against %s' % (self.f.qual, short(t)))
+            out.append(b)
+        return out
+
+    def atom(self, env):
+        def type_of_name(x):
+            if isinstance(x, ast.Name) and x.id in env:
+                return env[x.id][0]
+            return None
+
+        def atom(e):
+            if isinstance(e, ast.Call) and isinstance(e.func, ast.Name) and e.func.id == 'isinstance' and len(e.args) == 2 and not e.keywords:
+                t = type_of_name(e.args[0])
+                if t is None:
+                    return None
+                if t == _UNREAD:
+                    raise UnknownIdiom('%s: %s on a value that is not understood' % (self.f.qual, short(e)))
+                return {t in self._types(e.args[1])}
+            if isinstance(e, ast.Compare) and len(e.ops) == 1 and isinstance(e.left, ast.Call) and isinstance(e.left.func, ast.Name) \
+                    and e.left.func.id == 'type' and len(e.left.args) == 1:
+                t = type_of_name(e.left.args[0])
+                if t is None:
+                    return None
+                if t == _UNREAD:
+                    raise UnknownIdiom('%s: %s on a value that is not understood' % (self.f.qual, short(e)))
+                op, r = e.ops[0], e.comparators[0]
+                if isinstance(op, (ast.Is, ast.Eq, ast.IsNot, ast.NotEq)):
+                    hit = t in self._types(r) if not isinstance(r, ast.Tuple) else None
+                    if hit is None:
+                        raise UnknownIdiom('%s: %s' % (self.f.qual, short(e)))
+                    return {hit} if isinstance(op, (ast.Is, ast.Eq)) else {not hit}
+                if isinstance(op, (ast.In, ast.NotIn)) and isinstance(r, (ast.Tuple, ast.List, ast.Set)):
+                    hit = t in self._types(ast.Tuple(elts=r.elts, ctx=ast.Load()))
+                    return {hit} if isinstance(op, ast.In) else {not hit}
+                raise UnknownIdiom('%s: %s' % (self.f.qual, short(e)))
+            if isinstance(e, (ast.BoolOp, ast.UnaryOp, ast.Constant)):
+                return None
+            for x in walk_self(e):
+                if (isinstance(x, ast.Attribute) and x.attr == '__class__' and type_of_name(x.value) is not None) or \
+                        (isinstance(x, ast.Call) and isinstance(x.func, ast.Name) and x.func.id in ('type', 'isinstance', 'issubclass')
+                         and any(type_of_name(a) is not None for a in x.args)):
+                    raise UnknownIdiom('%s: test %s on the type of the payload' % (self.f.qual, short(e)))
+            return None
+        return atom
+
+    def values(self, e, env) -> Set[tuple]:
+        e = strip_await(e)
+        if isinstance(e, ast.Name):
+            if e.id in env:
+                return {env[e.id]}
+            return {(_UNREAD, 'other')}
+        if isinstance(e, ast.Constant):
+            return {(type(e.value).__name__, 'other')}
+        if isinstance(e, ast.NamedExpr):
+            return self.values(e.value, env)
+        if isinstance(e, ast.IfExp):
+            tv = possible(e.test, self.atom(env))
+            out = set()
+            if True in tv:
+                out |= self.values(e.body, env)
+            if False in tv:
+                out |= self.values(e.orelse, env)
+            return out
+        if isinstance(e, ast.Subscript) and isinstance(e.slice, ast.Slice) and e.slice.lower is None and e.slice.upper is None and e.slice.step is None:
+            return self.values(e.value, env)            # x[:] - same type, same content
+        if isinstance(e, ast.Call) and not e.keywords and len(e.args) == 1 and isinstance(e.func, ast.Name) and not isinstance(e.args[0], ast.Starred):
+            b = self._builtin(e.func)
+            if b in _BYTESLIKE:
+                out = set()
+                for (t, c) in self.values(e.args[0], env):
+                    out.add((b, c if t in _BYTESLIKE else 'other') if t != _UNREAD else (b, _UNREAD))
+                return out
+            if b == 'str':
+                return {(('str', c) if t == 'str' else ('str', 'other') if t != _UNREAD else ('str', _UNREAD)) for (t, c) in self.values(e.args[0], env)}
+        if isinstance(e, ast.Call) and not e.args and not e.keywords and isinstance(e.func, ast.Attribute) and e.func.attr == 'tobytes':
+            out = set()
+            for (t, c) in self.values(e.func.value, env):
+                out.add(('bytes', c) if t == 'memoryview' else (_UNREAD, 'other'))
+            return out
+        return {(_UNREAD, 'other')}
+
+    def at(self, sink_ids: Set[int], t0: str) -> Dict[int, List[dict]]:
+        """environments in which each sink node is reached when the payload argument has type `t0`"""
+        cfg = self.cfg
+        env0 = ((self.pay, (t0, 'payload')),)
+        seen = {(cfg.entry, env0)}
+        work = [(cfg.entry, env0)]
+        out: Dict[int, List[dict]] = {}
+        while work:
+            nid, envt = work.pop()
+            n = cfg.node(nid)
+            env = dict(envt)
+            if nid in sink_ids:
+                out.setdefault(nid, []).append(env)
+            env_exc = envt
+            if n.kind == 'stmt' and isinstance(n.ast, (ast.Assign, ast.AnnAssign, ast.AugAssign)) and getattr(n.ast, 'value', None) is not None:
+                tgs = n.ast.targets if isinstance(n.ast, ast.Assign) else [n.ast.target]
+                for t in tgs:
+                    if isinstance(t, ast.Name):
+                        if isinstance(n.ast, ast.AugAssign):
+                            env[t.id] = (_UNREAD, 'other')
+                            continue
+                        vs = self.values(n.ast.value, dict(envt))
+                        if len(vs) == 1:
+                            env[t.id] = next(iter(vs))
+                        else:
+                            env[t.id] = None        # forked below
+                            forks = sorted(vs)
+                    elif isinstance(t, (ast.Tuple, ast.List)):
+                        for x in ast.walk(t):
+                            if isinstance(x, ast.Name):
+                                env[x.id] = (_UNREAD, 'other')
+            elif n.kind in ('iter', 'with') or (n.kind == 'stmt' and isinstance(n.ast, ast.Delete)):
+                for e in n.own():
+                    for x in ast.walk(e):
+                        if isinstance(x, ast.Name) and isinstance(x.ctx, (ast.Store, ast.Del)):
+                            env[x.id] = (_UNREAD, 'other')
+            for x in (n.walk() if n.ast is not None else []):
+                if isinstance(x, ast.NamedExpr):
+                    vs = self.values(x.value, dict(envt))
+                    env[x.target.id] = next(iter(vs)) if len(vs) == 1 else (_UNREAD, 'other')
+            envs = [env]
+            pending = [k for k, v in env.items() if v is None]
+            if pending:
+                envs = []
+                for v in forks:
+                    e2 = dict(env)
+                    for k in pending:
+                        e2[k] = v
+                    envs.append(e2)
+            tv = None
+            if n.kind == 'test':
+                tv = possible(n.ast, self.atom(dict(envt)))
+            elif n.kind == 'stmt' and isinstance(n.ast, ast.Assert):
+                if True not in possible(n.ast.test, self.atom(dict(envt))):
+                    envs = []
+            for (y, l) in cfg.succ[nid]:
+                if l == 'exc':
+                    if cfg.node(y).kind != 'handler':
+                        continue
+                    nxt = [env_exc]
+                else:
+                    if tv is not None and l in ('T', 'F') and (l == 'T') not in tv:
+                        continue
+                    nxt = [tuple(sorted(e2.items())) for e2 in envs]
+                for e2 in nxt:
+                    if (y, e2) not in seen:
+                        seen.add((y, e2))
+                        work.append((y, e2))
+        return out
+
+
+def local_names_of(f: Func) -> Set[str]:
+    out = set(f.params())
+    for x in walk_self(f.node):
+        if isinstance(x, ast.Name) and isinstance(x.ctx, ast.Store):
+            out.add(x.id)
+    return out
+
+
+def _send_event_sites(model: WSModel, f: Func, cfg):
+    """[(emit node, call, event dict literal, node ids that evaluate the literal)] for the websocket.send events `f` emits"""
+    out = []
+    for n in cfg.live_nodes():
+        for c in n.calls():
+            if (model._self_method(f, c) is not None or model.is_raw_send_call(c)) and c.args and model.event_type(f, c.args[0], {}) == 'websocket.send':
+                ev = _one_def(f, c.args[0])
+                if not isinstance(ev, ast.Dict) or any(k is None for k in ev.keys):
+                    raise UnknownIdiom('%s: the websocket.send event is built by %s' % (f.qual, short(ev)))
+                at = [m.id for m in cfg.live_nodes() if any(x is ev for x in m.walk())]
+                if not at:
+                    raise UnknownIdiom('%s: event literal %s not found in the CFG' % (f.qual, short(ev)))
+                out.append((n, c, ev, at))
+    if not out:
+        raise AnchorError('%s: emission of the websocket.send event not found' % f.qual)
+    return out
+
+
+def _event_mutations(f: Func, ev: ast.Dict):
+    """(key expr, value) of every ``<local>[k] = v`` on the local bound to the literal `ev` (a local that is only ever bound
+    to dict literals); raises on update()/setdefault()/... on it"""
+    name = None
+    for n in walk_self(f.node):
+        if isinstance(n, (ast.Assign, ast.AnnAssign)) and n.value is ev:
+            tg = n.targets[0] if isinstance(n, ast.Assign) else n.target
+            if isinstance(tg, ast.Name) and all(isinstance(d, ast.Dict) for d in local_defs(f, tg.id)):
+                name = tg.id        # one literal per branch: a later store lands in whichever was bound
+            else:
+                raise UnknownIdiom('%s: event literal bound by %s' % (f.qual, short(n)))
+    out = []
+    if name is None:
+        return out
+    for n in walk_self(f.node):
+        if isinstance(n, (ast.Assign, ast.AugAssign, ast.AnnAssign)):
+            for t in (n.targets if isinstance(n, ast.Assign) else [n.target]):
+                for x in ast.walk(t):
+                    if isinstance(x, ast.Subscript) and isinstance(x.value, ast.Name) and x.value.id == name and isinstance(x.ctx, ast.Store):
+                        out.append((x.slice, getattr(n, 'value', None)))
+        elif isinstance(n, ast.Call) and isinstance(n.func, ast.Attribute) and isinstance(n.func.value, ast.Name) and n.func.value.id == name \
+                and n.func.attr in ('update', 'setdefault', '__setitem__', 'pop', 'popitem', 'clear'):
+            raise UnknownIdiom('%s: the event is changed through %s' % (f.qual, short(n)))
+    return out
+
+
+def r10_event_payloads(run):
+    """"Text/binary/media payloads arrive unchanged" and "the events form a legal ASGI session" - what is put INTO the
+    events:
+
+    * ``send_data``: for every type the argument may have when the event is built (bytes, bytearray, memoryview, minus
+      what the type check rejects), the value under 'bytes' is of type ``bytes`` and has the payload's content - an
+      immutable snapshot: ``bytes(x)`` unconditionally, or on every path on which the argument is not already exactly
+      ``bytes``.  Abstract evaluation per argument type; ``isinstance``/``type() is`` tests on it are evaluated.
+      W: ``buf = bytearray(8); readinto(buf); await ws.send_data(buf)`` in a loop against a server that queues the
+      events: the event carries the caller's bytearray (not the ``bytes`` the ASGI spec requires), every queued frame
+      shows the last chunk.
+    * ``send_text``: the value under 'text' is the (type-checked) ``str`` argument itself.
+    * ``send_media``: the value under 'text' is the TEXT media handler's ``serialize`` applied to the argument, under
+      'bytes' the BINARY handler's; the text event is built exactly when ``payload_type`` is TEXT.  (What a custom
+      binary handler returns is user code; the documented ``serialize`` contract is trusted.)
+    * every websocket.accept/send/close event literal of the framework (and the ``event[k] = v`` stores on it) uses
+      only the keys the ASGI spec defines for that event; a websocket.send event carries exactly one payload key.
+
+    Anchors: the methods, the first parameter as payload, the ``payload_type`` keyword, ``WebSocketPayloadType.TEXT/BINARY``,
+    the ``serialize`` attribute of the handlers, the event keys."""
+    p = run.project
+    model = _model(run)
+    for f in _public_ops(model):
+        for cell in model.all_cells():
+            model.analyse(f, cell)
+    # --- send_data / send_text: abstract evaluation per argument type
+    for name, key, domain, want in (('send_data', 'bytes', _BYTESLIKE, 'bytes'), ('send_text', 'text', ('str',), 'str')):
+        f = p.func('%s.%s' % (WS, name))
+        params = [a for a in f.params() if a != 'self']
+        if not params:
+            raise UnknownIdiom('%s has no payload parameter' % f.qual)
+        pe = _PayloadEval(p, f, params[0])
+        cfg = pe.cfg
+        run.use_cfg(cfg)
+        for (n, c, ev, at) in _send_event_sites(model, f, cfg):
+            if _event_mutations(f, ev):
+                raise UnknownIdiom('%s: the websocket.send event is filled in after it was built' % f.qual)
+            keys = {k.value: v for k, v in zip(ev.keys, ev.values) if isinstance(k, ast.Constant)}
+            if len(keys) != len(ev.keys):
+                raise UnknownIdiom('%s: computed key in %s' % (f.qual, short(ev)))
+            if key not in keys:
+                continue        # R5 reports the missing payload key
+            val = keys[key]
+            bad, unread, reached = [], [], 0
+            for t0 in domain:
+                for nid, envs in pe.at(set(at), t0).items():
+                    for env in envs:
+                        reached += 1
+                        for (t, cont) in sorted(pe.values(val, env)):
+                            if t == _UNREAD or cont == _UNREAD:
+                                unread.append(t0)
+                            elif t != want or cont != 'payload':
+                                bad.append('%s argument -> %r carries %s' % (t0, key, t if t != want else 'a %s that is not the payload' % t))
+            if reached == 0:
+                raise UnknownIdiom('%s: the event literal is not reached for any payload type' % f.qual)
+            if unread and not bad:
+                raise UnknownIdiom('%s: the value under %r, %s, is not understood (payload of type %s)' % (f.qual, key, short(val), sorted(set(unread))[0]))
+            run.check(not bad, ('%s: the event carries an immutable snapshot of the payload - a value of type bytes for every admitted argument type '
+                                '(bytes(x) unless the argument is already exactly bytes)' if want == 'bytes' else
+                                '%s: the event carries the str argument itself') % name,
+                      f, '%r: %s' % (key, short(val)), where=f.loc(val), witness=sorted(set(bad)),
+                      runtime_witness='a responder refills one bytearray per chunk and passes it to send_data(): the event holds the caller\'s mutable '
+                                      'buffer (not the bytes the ASGI spec requires); a server that queues events sends N copies of the last chunk'
+                                      if want == 'bytes' else 'the text frame does not carry the string given to send_text()')
+    # --- send_media: documented serializer, matching payload type
+    f = p.func(WS + '.send_media')
+    cfg = cfg_of(f, p)
+    run.use_cfg(cfg)
+    params = [a for a in f.params() if a != 'self']
+    if len(params) < 2 or 'payload_type' not in params:
+        raise AnchorError('%s: media argument / payload_type keyword not found' % f.qual)
+    media = params[0]
+    serializers: Dict[str, str] = {}
+    for (attr, val, _node) in _c18._stores(model.init):
+        v = _one_def(model.init, val)
+        if isinstance(v, ast.Attribute) and v.attr == 'serialize':
+            src = _one_def(model.init, v.value)
+            if isinstance(src, ast.Subscript):
+                q = p.resolve_expr(model.init.module, src.slice, model.init)
+                if q in (PAYLOAD_ENUM + '.TEXT', PAYLOAD_ENUM + '.BINARY'):
+                    serializers[attr] = q.rsplit('.', 1)[1]
+    if set(serializers.values()) != {'TEXT', 'BINARY'}:
+        raise AnchorError('%s.__init__: the serialize methods of the TEXT and BINARY media handlers are not bound to fields (%s)' % (WS, serializers))
+
+    def pt_atom(member):
+        def atom(e):
+            if isinstance(e, ast.Compare) and len(e.ops) == 1 and any(isinstance(x, ast.Name) and x.id == 'payload_type' for x in (e.left, e.comparators[0])):
+                l, r, op = e.left, e.comparators[0], e.ops[0]
+                if not (isinstance(l, ast.Name) and l.id == 'payload_type'):
+                    l, r = r, l
+                if isinstance(op, (ast.Is, ast.Eq, ast.IsNot, ast.NotEq)):
+                    q = p.resolve_expr(f.module, r, f)
+                    if q is None or not q.startswith(PAYLOAD_ENUM + '.'):
+                        raise UnknownIdiom('%s: payload_type compared with %s' % (f.qual, short(r)))
+                    eq = q == PAYLOAD_ENUM + '.' + member
+                    return {eq} if isinstance(op, (ast.Is, ast.Eq)) else {not eq}
+                if isinstance(op, (ast.In, ast.NotIn)) and isinstance(r, (ast.Tuple, ast.List, ast.Set)):
+                    qs = [p.resolve_expr(f.module, x, f) for x in r.elts]
+                    if any(q is None or not q.startswith(PAYLOAD_ENUM + '.') for q in qs):
+                        raise UnknownIdiom('%s: %s' % (f.qual, short(e)))
+                    isin = PAYLOAD_ENUM + '.' + member in qs
+                    return {isin} if isinstance(op, ast.In) else {not isin}
+                raise UnknownIdiom('%s: %s' % (f.qual, short(e)))
+            if isinstance(e, ast.Name) and e.id == 'payload_type':
+                return {True}       # Enum members are truthy
+            return None
+        return atom
+
+    sites = _send_event_sites(model, f, cfg)
+    site_key: Dict[int, str] = {}
+    for (n, c, ev, at) in sites:
+        if _event_mutations(f, ev):
+            raise UnknownIdiom('%s: the websocket.send event is filled in after it was built' % f.qual)
+        keys = {k.value: v for k, v in zip(ev.keys, ev.values) if isinstance(k, ast.Constant)}
+        pk = sorted(k for k in keys if k in ('text', 'bytes'))
+        if len(pk) != 1:
+            run.fail('send_media: the event carries exactly one payload key', f, ev, runtime_witness='a frame with both/no payloads is handed to the server')
+            continue
+        key = pk[0]
+        site_key[n.id] = key
+        val = strip_await(_one_def(f, keys[key]))
+        kind = None
+        if isinstance(val, ast.Call) and isinstance(val.func, ast.Attribute) and isinstance(val.func.value, ast.Name) and val.func.value.id == 'self':
+            kind = serializers.get(val.func.attr)
+            if kind is None:
+                m = model._self_method(f, val)
+                if m is not None or val.func.attr not in {a for (a, _v, _n) in _c18._stores(model.init)}:
+                    raise UnknownIdiom('%s: the %r payload is produced by %s' % (f.qual, key, short(val)))
+            through = len(val.args) == 1 and not val.keywords and isinstance(val.args[0], ast.Name) and val.args[0].id == media
+        elif any(isinstance(x, ast.Name) and x.id == media for x in walk_self(val)) and not any(isinstance(x, ast.Call) for x in walk_self(val)):
+            through = False         # the object itself (or a plain expression of it), not serialized
+        else:
+            raise UnknownIdiom('%s: the %r payload is %s' % (f.qual, key, short(val)))
+        want_kind = 'TEXT' if key == 'text' else 'BINARY'
+        run.check(through and kind == want_kind,
+                  'send_media: the %r payload is the %s media handler\'s serialize() applied to the media argument' % (key, want_kind),
+                  f, '%r: %s' % (key, short(val)), where=f.loc(val),
+                  runtime_witness='send_media(obj) puts %s into a %s frame' % ('an unserialized object' if not through else 'the output of the other handler', key))
+    for member, key in (('TEXT', 'text'), ('BINARY', 'bytes')):
+        reach = flow.reachable(cfg, [cfg.entry], edge_filter=feasible(cfg, pt_atom(member)))
+        got = sorted({site_key[i] for i in site_key if i in reach})
+        run.check(got == [key], 'send_media: payload_type=%s builds a %r event and nothing else' % (member, key), f, 'payload_type %s -> %s' % (member, key),
+                  witness=['events reachable: %s' % (got or 'none')],
+                  runtime_witness='send_media(obj, WebSocketPayloadType.%s) sends a frame of the other kind' % member)
+    # --- documented keys of every server->client event literal
+    n_lits = 0
+    for g in p.all_functions():
+        if not _in_scope(g.module.name):
+            continue
+        for d in walk_self(g.node):
+            if not isinstance(d, ast.Dict):
+                continue
+            t = None
+            for k, v in zip(d.keys, d.values):
+                if isinstance(k, ast.Constant) and k.value == 'type':
+                    t = p.fold(g.module, v, g.cls, g)
+            if t not in OUT_EVENTS:
+                continue
+            n_lits += 1
+            run.use(g)
+            if any(k is None for k in d.keys):
+                raise UnknownIdiom('%s: ** in the %s event' % (g.qual, t))
+            ks = []
+            for k in list(d.keys) + [k for (k, _v) in _event_mutations(g, d)]:
+                kv = p.fold(g.module, k, g.cls, g)
+                if not isinstance(kv, str):
+                    raise UnknownIdiom('%s: computed key %s in the %s event' % (g.qual, short(k), t))
+                ks.append(kv)
+            extra = sorted(set(ks) - DOCUMENTED_KEYS[t])
+            run.check(not extra, 'the %s event built here uses only the keys the ASGI spec defines for it (%s)' % (t, ', '.join(sorted(DOCUMENTED_KEYS[t]))),
+                      g, '%s keys %s' % (t, sorted(set(ks))), where=g.loc(d), witness=['undocumented: %s' % extra],
+                      runtime_witness='a strict ASGI server rejects the %s event' % t)
+    if n_lits < 5:
+        raise AnchorError('fewer than 5 server->client WebSocket event literals found')
+
+
 def check(run):
     run.assume('a WebSocket object is used by one task at a time (the state is not changed by other tasks while an operation is suspended), '
                'except for the client_disconnected flag, which may become True at any suspension point')
@@ -1879,3 +2487,5 @@ def check(run):
                                                  'still handed out (= C18 R7, shared)', floor=4)
     run.rule('R9', r9_disconnected_code, 'the documented disconnected error always carries an integer close code: a construction site in ws.py whose '
                                          'argument may be None relies on the constructor mapping None to the default code', floor=4)
+    run.rule('R10', r10_event_payloads, 'what is put into the events: send_data hands over an immutable bytes snapshot for every admitted argument type, '
+                                        'send_text the str itself, send_media the matching handler\'s serialize(media); documented keys only', floor=10)
